@@ -713,11 +713,14 @@ pub fn run_edge_case(prop: &'static str, case: &EdgeCase) -> Verdict {
         {
             let mut st = sh.st.lock().unwrap();
             loop {
-                let enough = {
+                let (enough, still_blocked) = {
                     let l = lg.lock().unwrap();
-                    l.blocking_released + l.timed_none_early + l.timed_none_late >= unblocks
+                    (l.blocking_released + l.timed_none_early + l.timed_none_late >= unblocks, c.blocking - l.blocking_released)
                 };
-                if enough {
+                // an unblock marker must not sit in the queue while a receiver stays blocked in
+                // recv(): that call to unblock() would have released nobody
+                let (_elems, markers) = q.verif_counts();
+                if enough && !(markers > 0 && still_blocked > 0) {
                     break;
                 }
                 st = sh.cv.wait(st).unwrap();
